@@ -248,6 +248,27 @@ def _drive(case, RE, Msg, res, persistent_in):
     vspec, nspec, sspec = case["validator"], case["normalizer"], case["scan_id_source"]
     docs = []
     RE.subscribe(lambda name, doc: docs.append((name, copy.deepcopy(dict(doc)))))
+    # an "intruder": somebody calls RE(other_plan, **kw) while a call is in progress (here: from a document consumer on
+    # the n-th RunStart of the call).  The engine refuses it; a refused call must leave no trace.
+    intr = {"spec": None, "starts": 0, "refused": 0, "not_refused": []}
+
+    def intruder(name, doc):
+        sp = intr["spec"]
+        if sp is None or name != "start":
+            return
+        intr["starts"] += 1
+        if intr["starts"] != sp["at_start"]:
+            return
+        try:
+            RE([Msg("null")], **copy.deepcopy(sp["kw"]))
+        except RuntimeError:
+            intr["refused"] += 1
+        except Exception as e:  # noqa: BLE001
+            intr["not_refused"].append(repr(e))
+        else:
+            intr["not_refused"].append("returned")
+
+    RE.subscribe(intruder)
 
     # model of the persistent metadata: what the case put in + the engine's 'versions' entry
     model_md = copy.deepcopy(persistent_in)
@@ -357,10 +378,17 @@ def _drive(case, RE, Msg, res, persistent_in):
 
         docs_before_call = len(docs)
         call_exc = None
+        intr.update(spec=call.get("intruder"), starts=0)
         try:
             RE(plan, **copy.deepcopy(kw))
         except Exception as e:
             call_exc = e
+        intr["spec"] = None
+        if intr["not_refused"]:
+            res.fail("call_while_running_not_refused", f"call {ci}: RE(...) from inside a document callback: {intr['not_refused']}")
+            return
+        if intr["refused"]:
+            res.classes.append("refused_call_in_between")
         if RE.state != "idle":
             res.fail("engine_not_idle", f"call {ci}: RunEngine state {RE.state!r} after the call")
             return
@@ -574,6 +602,8 @@ def _strategy():
                 "interleave": draw(st.booleans()) if kind != "list" else False,
                 "runs": [{"md": draw(md_dict(bad))} for _ in range(draw(st.integers(1, 4)))],
             }
+            if draw(st.integers(0, 3)) == 0:
+                call["intruder"] = {"at_start": draw(st.integers(1, 3)), "kw": draw(md_dict(False))}
             calls.append(call)
         return {"persistent": persistent, "validator": vspec, "normalizer": nspec, "scan_id_source": sspec, "calls": calls}
 
